@@ -41,9 +41,11 @@ type El struct {
 }
 
 type Body struct {
-	Kind string `json:"kind"`
-	Root string `json:"root"`
-	Els  []El   `json:"els"`
+	Kind  string `json:"kind"`
+	Root  string `json:"root"`
+	Els   []El   `json:"els"`
+	Pad   int    `json:"pad"`   // kilobytes of XML comments in front of the elements
+	Flush bool   `json:"flush"` // body written in two pieces with a pause in between
 }
 
 type Opt struct {
@@ -63,6 +65,7 @@ type Case struct {
 	Base   string          `json:"base"`
 	Lim    string          `json:"lim"`
 	Via    string          `json:"via"`
+	Ctx    string          `json:"ctx"`
 	LimOK  bool            `json:"limok"`
 	Status int             `json:"status"`
 	Body   Body            `json:"body"`
@@ -84,6 +87,10 @@ type Rec struct {
 
 const badNum = 2000000000
 
+const flushPause = 15 * time.Millisecond
+
+var padding = "<!-- " + strings.Repeat("padding padding padding padding padding padding padding padding\n", 16) + " -->\n" // 1 KB
+
 // ---------------------------------------------------------------- event log
 var (
 	mu     sync.Mutex
@@ -91,6 +98,7 @@ var (
 	script struct {
 		status int
 		body   []byte
+		flush  bool
 		raw    json.RawMessage
 	}
 )
@@ -157,7 +165,7 @@ func parseQuery(raw string) []Param {
 func handler(w http.ResponseWriter, r *http.Request) {
 	logEv(Event{"e": "get", "method": r.Method, "host": r.Host, "path": r.URL.EscapedPath(), "query": parseQuery(r.URL.RawQuery)})
 	mu.Lock()
-	st, body, raw := script.status, script.body, script.raw
+	st, body, raw, flush := script.status, script.body, script.raw, script.flush
 	mu.Unlock()
 	// logged before anything is written: the caller cannot have seen the answer yet
 	logEv(Event{"e": "resp", "status": st, "body": raw})
@@ -168,7 +176,18 @@ func handler(w http.ResponseWriter, r *http.Request) {
 	}
 	w.WriteHeader(st)
 	if st != 204 && st != 304 {
-		w.Write(body)
+		if flush && len(body) > 1 {
+			// a server that streams: first half, flush, pause, second half
+			half := len(body) / 2
+			w.Write(body[:half])
+			if f, ok := w.(http.Flusher); ok {
+				f.Flush()
+			}
+			time.Sleep(flushPause)
+			w.Write(body[half:])
+		} else {
+			w.Write(body)
+		}
 	}
 }
 
@@ -201,6 +220,9 @@ func renderBody(b Body) []byte {
 	var sb strings.Builder
 	sb.WriteString(`<?xml version="1.0" encoding="UTF-8"?>` + "\n")
 	sb.WriteString(fmt.Sprintf(`<%s version="0.6" generator="verif">`, b.Root))
+	for i := 0; i < b.Pad; i++ {
+		sb.WriteString(padding)
+	}
 	sec := ""
 	for _, e := range b.Els {
 		if e.Sec != sec {
@@ -315,6 +337,13 @@ func atoi64(s string) int64 {
 
 func call(c *Case, ds *osmapi.Datasource) (interface{}, error) {
 	ctx := context.Background()
+	if c.Ctx == "deadline" {
+		var cancel context.CancelFunc
+		ctx, cancel = context.WithTimeout(ctx, 30*time.Minute)
+		defer cancel()
+	} else if c.Ctx != "bg" {
+		vio.Must(fmt.Errorf("unknown ctx %q", c.Ctx), "case")
+	}
 	pkg := c.Via == "pkg"
 	id := atoi64(c.ID)
 	ver := int(atoi64(c.Ver))
@@ -516,7 +545,7 @@ func main() {
 
 		mu.Lock()
 		events = nil
-		script.status, script.body, script.raw = c.Status, renderBody(c.Body), raw.Body
+		script.status, script.body, script.raw, script.flush = c.Status, renderBody(c.Body), raw.Body, c.Body.Flush
 		mu.Unlock()
 
 		var lim osmapi.RateLimiter
